@@ -23,4 +23,11 @@ PLAN = {
         "explanation": "contracts on both PeriodicBoundaries classes: range/idempotence bit-precisely (model F), "
                        "congruence and uniqueness in the reals (model R), loops by invariant",
     },
+    "C05": {
+        "sidecars": ["contracts.lifting_c05"],
+        "level": "proof",
+        "trusted": COMMON_TRUSTED + ["model R: machine arithmetic treated as mathematical"],
+        "explanation": "contracts on Lifting.insert and the three get_active_identifier walks (loop invariant over "
+                       "prefix sums), tiling lemmas for the flow balance",
+    },
 }
